@@ -114,6 +114,29 @@ def check(ctx: Ctx) -> list[RuleResult]:
     for n in sends_in_alert:
         if "_send_cmd" not in norm(n.value) :
             r1.fail(f"{alert.short}:alert-bypasses-_send_cmd", alert.loc(n), "the impersonation alert awaits something other than self._send_cmd (it would not be bounded by the QoS timeout)")
+    # the timeout the wait is capped with is the caller's: QosParams may lower it (cap, default for None) but never raise it.
+    # The defining expression of QosParams._timeout is folded for a range of caller values (constant folding, nothing is run).
+    qp = repo.func("ramses_tx.typing.QosParams.__init__")
+    tdefs = [n for n in own_nodes(qp.node) if isinstance(n, ast.Assign) and any(norm(t) == "self._timeout" for t in n.targets)]
+    tprop = repo.funcs.get("ramses_tx.typing.QosParams.timeout")
+    if len(tdefs) != 1 or tprop is None or not any(isinstance(n, ast.Return) and n.value is not None and norm(n.value) == "self._timeout" for n in own_nodes(tprop.node)):
+        raise AnalysisError("QosParams: the definition of _timeout / the timeout property was not found in the expected form")
+    r1.instances += 1
+    r1.nontrivial += 1
+    raised = []
+    for v in (0.05, 0.25, 0.9, 1.0, 3.0, 19.0, 20.0, 30.0):
+        try:
+            got = ctx.consts.eval_in(qp, tdefs[0].value, local={"timeout": v})
+        except Exception:
+            got = None
+        if not isinstance(got, (int, float)):
+            raise AnalysisError(f"QosParams._timeout = {norm(tdefs[0].value)[:60]} does not fold for timeout={v}")
+        if got > v:
+            raised.append((v, got))
+    if raised:
+        r1.fail(f"{qp.short}:timeout-raised", qp.loc(tdefs[0]), f"QosParams turns a caller's timeout of {raised[0][0]} s into {raised[0][1]} s (`{norm(tdefs[0].value)[:70]}`): the send can take longer than the caller allowed")
+    else:
+        r1.ok({"QosParams._timeout": norm(tdefs[0].value)[:70], "never_above_the_callers_value": True})
     out.append(r1)
 
     # ---- R2 ---------------------------------------------------------------------------
